@@ -158,7 +158,7 @@ def judge(ctx, specs, results, module_src):
                            solver_s=r.secs, functions=funcs))
             continue
         if r.status == 'success':
-            if r.covers[1] and r.covers[0] != r.covers[1] and not s.get('allow_unsat_cover'):
+            if r.covers[1] and r.covers[0] != r.covers[1] and (not s.get('allow_unsat_cover') or r.covers[0] == 0):
                 ctx.add(Ob(h, 'K', INCONCLUSIVE, detail='only %d of %d cover witnesses satisfied (vacuity guard)' % r.covers,
                            solver_s=r.secs, functions=funcs))
             else:
